@@ -1469,6 +1469,7 @@ class AggregateFunction(Function):
 
     @builder
     def filter(self, *filters: Any) -> "AnalyticFunction":
+        filters = [f for f in filters if not isinstance(f, EmptyCriterion)]
         if not filters:
             return
         self._include_filter = True
